@@ -455,6 +455,35 @@ func c18(c *Ctx) {
 	c.ExpectAll("chunk/close-writes-marker", c.CallArgs(cc, p.PlainCalls("encoding/binary.Write"), 2), "0", 1, "Close writes the zero-length end marker", "")
 	c.Guarded("chunk/close-once", cc, p.PlainCalls("encoding/binary.Write"), gs(GP("p0.closed", false)), 1, "a second Close writes nothing", "two end markers would be read as an empty next body")
 
+	// ---- the end marker is written only for a complete body ----
+	for _, u := range []struct{ fn, producer, ok string }{
+		{"http.(*Server).streamLTXSnapshot", "litefs.(*DB).WriteSnapshotTo", "(litefs.(*DB).WriteSnapshotTo(@@)#2 == nil)"},
+		{"http.(*Server).streamLTX", "io.Copy", "(io.Copy(@@)#1 == nil)"},
+	} {
+		short := u.fn[strings.LastIndex(u.fn, ".")+1:]
+		closeAny := p.Calls("chunk.(*Writer).Close")
+		var deferred []string
+		for _, fn := range append([]*ssa.Function{c.F(u.fn)}, c.F(u.fn).AnonFuncs...) {
+			for _, b := range fn.Blocks {
+				for _, in := range b.Instrs {
+					if d, ok := in.(*ssa.Defer); ok {
+						if cf := p.calleeFunc(d); cf != nil && len(InstrsDeep(cf, closeAny)) > 0 || p.CalleeName(d.Common()) == "chunk.(*Writer).Close" {
+							deferred = append(deferred, c.where(in))
+						}
+					}
+				}
+			}
+		}
+		d := short + ": the chunk writer is closed (end-of-body marker) by a plain call on the success path of the body producer, never by a defer"
+		if len(deferred) > 0 {
+			c.fail("chunk/end-marker-complete-body/"+short+"/no-defer", "K5", d, "a deferred Close writes the end marker also when the producer failed half way: the peer reads the truncated body as complete", "deferred close at "+strings.Join(deferred, ", "), len(deferred))
+		} else {
+			c.ok("chunk/end-marker-complete-body/"+short+"/no-defer", "K5", d, 1)
+		}
+		c.Guarded("chunk/end-marker-complete-body/"+short+"/after-success", u.fn, p.PlainCalls("chunk.(*Writer).Close"), gs(GP(u.ok, true)), 1, short+": Close is reached only when "+u.producer+" returned no error", "every truncated byte sequence is reported as an error")
+		c.After("chunk/end-marker-complete-body/"+short+"/flushed", u.fn, p.PlainCalls("chunk.NewWriter"), p.PlainCalls("chunk.(*Writer).Close"), p.SuccessReturn, 1, short+": every success exit after the chunk writer was created has closed the chunked body", "without the marker the peer waits for more chunks and parses the next frame as body")
+	}
+
 	// ---- alloc ----
 	{
 		var bad []string
